@@ -78,3 +78,7 @@ impl ReadHalf {
 #[verifier::external_body] pub fn vx_vec_take_all<T>(v: &mut Vec<T>) -> (r: Vec<T>) ensures r@ == old(v)@, final(v)@ == Seq::<T>::empty(), r@.len() <= usize::MAX { unimplemented!() }
 // <[T]>::reverse reached through Vec's DerefMut
 #[verifier::external_body] pub fn vx_vec_reverse<T>(v: &mut Vec<T>) ensures final(v)@ == old(v)@.reverse() { v.reverse() }
+// `v.drain(..n).collect()`: panics when n > len
+#[verifier::external_body] pub fn vx_vec_take_front<T>(v: &mut Vec<T>, n: usize) -> (r: Vec<T>)
+    requires n <= old(v)@.len()
+    ensures r@ == old(v)@.subrange(0, n as int), final(v)@ == old(v)@.subrange(n as int, old(v)@.len() as int) { unimplemented!() }
